@@ -142,6 +142,8 @@ _CMPOPS = {
 def _num(v):
     """floats are exact rationals in the lifted world"""
     if isinstance(v, float):
+        if v != v or v in (float("inf"), float("-inf")):
+            return v
         return Fraction(repr(v))
     return v
 
@@ -159,6 +161,8 @@ class Interp:
         self.isinstance_hook = None
         self.attr_hook = None
         self.method_hook = None
+        self.module_globals = {}
+        self.instantiable = set()  # names of repository classes that may be instantiated from source
 
     # ------------------------------------------------------------------ calls
     def call_function(self, fi: FuncInfo, args, kwargs=None, self_obj=None):
@@ -471,9 +475,24 @@ class Interp:
             return v
         return self.global_name(e.id, mod, e)
 
+    def exec_module_level(self, modname, want=None):
+        """Evaluate the module-level assignments of a module (in order) into a persistent
+        global table, so that later references see the same objects.  `want(stmt)` filters."""
+        mod = self.prog.module(modname)
+        g = self.module_globals.setdefault(modname, {})
+        env = Env()
+        env.vars = g
+        for st in mod.tree.body:
+            if isinstance(st, (ast.Assign, ast.AnnAssign)) and (want is None or want(st)):
+                self.exec_stmt(st, env, mod)
+        return g
+
     def global_name(self, name, mod, node=None):
         if name in self.overrides:
             return self.overrides[name]
+        g = self.module_globals.get(mod.name)
+        if g is not None and name in g:
+            return g[name]
         r = self.prog.resolve_name(mod, name)
         if r is not None:
             return self.entity_value(r, mod, name)
@@ -627,6 +646,10 @@ class Interp:
             return obj[k]
         if isinstance(obj, Obj) and "__getitem__" in obj.attrs:
             return obj.attrs["__getitem__"](key)
+        if self.obj_class(obj) is not None:
+            m, _ = self.find_method(self.obj_class(obj), "__getitem__")
+            if m is not None:
+                return self.call_function(m, [key], {}, self_obj=obj)
         raise Unsupported(f"subscript on {type(obj).__name__} ({norm(node) if node is not None else ''})")
 
     def e_Slice(self, e, env, mod):
@@ -705,8 +728,128 @@ class Interp:
             left = right
         return True
 
+    # ---- object model: instances of repository classes are Obj(__class__=ClassInfo) ----------
+    def obj_class(self, x):
+        if isinstance(x, Obj):
+            k = x.attrs.get("__class__")
+            if isinstance(k, ClassInfo):
+                return k
+        return None
+
+    def find_method(self, cls, name):
+        """(FuncInfo | None, synthesized_by_total_ordering: bool)"""
+        r = self.prog.lookup(cls, name)
+        if isinstance(r, FuncInfo):
+            return r, False
+        if name in ("__gt__", "__le__", "__ge__", "__lt__"):
+            for k in cls.mro():
+                if any(norm(d).split(".")[-1] == "total_ordering" for d in k.node.decorator_list):
+                    return None, True
+        return None, False
+
+    def instantiate(self, cls, args, kwargs):
+        o = Obj(cls.name, __class__=cls)
+        init = self.prog.lookup(cls, "__init__")
+        if isinstance(init, FuncInfo):
+            self.call_function(init, list(args), dict(kwargs), self_obj=o)
+        elif args or kwargs:
+            raise Unsupported(f"{cls.name}() takes no arguments")
+        return o
+
+    def is_hashable_obj(self, x):
+        k = self.obj_class(x)
+        if k is None:
+            return True
+        for c in k.mro():
+            if "__hash__" in c.methods:
+                return True
+            if "__hash__" in c.assigns:
+                return norm(c.assigns["__hash__"]) != "None"
+            if "__eq__" in c.methods:
+                return False  # defining __eq__ without __hash__ makes instances unhashable
+        return True
+
+    def obj_eq(self, a, b, node=None):
+        ka, kb = self.obj_class(a), self.obj_class(b)
+        if ka is None and kb is None:
+            return self.compare(ast.Eq, a, b, node)
+        r = self.rich(ast.Eq, a, b, node)
+        return self.truth(r, node)
+
+    _REFLECT = {ast.Lt: "__gt__", ast.Gt: "__lt__", ast.LtE: "__ge__", ast.GtE: "__le__", ast.Eq: "__eq__", ast.NotEq: "__ne__"}
+    _DUNDER = {ast.Lt: "__lt__", ast.Gt: "__gt__", ast.LtE: "__le__", ast.GtE: "__ge__", ast.Eq: "__eq__", ast.NotEq: "__ne__"}
+
+    def _call_cmp(self, x, name, y, node):
+        k = self.obj_class(x)
+        if k is None:
+            return NotImplemented
+        m, synth = self.find_method(k, name)
+        if m is not None:
+            r = self.call_function(m, [y], {}, self_obj=x)
+            return r
+        if synth:
+            lt, _ = self.find_method(k, "__lt__")
+            if lt is None:
+                return NotImplemented
+            less = self.call_function(lt, [y], {}, self_obj=x)
+            if less is NotImplemented:
+                return NotImplemented
+            less = self.truth(less, node)
+            if name == "__gt__":
+                return (not less) and not self.obj_eq(x, y, node)
+            if name == "__le__":
+                return less or self.obj_eq(x, y, node)
+            if name == "__ge__":
+                return not less
+        if name == "__eq__":
+            return x is y
+        if name == "__ne__":
+            r = self._call_cmp(x, "__eq__", y, node)
+            return NotImplemented if r is NotImplemented else (not self.truth(r, node))
+        return NotImplemented
+
+    def rich(self, op, a, b, node):
+        """Python's rich comparison protocol for Obj instances (reflected operand of a proper
+        subclass instance is tried first)."""
+        ka, kb = self.obj_class(a), self.obj_class(b)
+        first = [(a, self._DUNDER[op], b), (b, self._REFLECT[op], a)]
+        if ka is not None and kb is not None and kb is not ka and kb.is_subclass_of(ka.name):
+            first.reverse()
+        for x, name, y in first:
+            r = self._call_cmp(x, name, y, node)
+            if r is not NotImplemented:
+                return r
+        if op is ast.Eq:
+            return a is b
+        if op is ast.NotEq:
+            return a is not b
+        raise LiftRaise(f"TypeError: '{self._DUNDER[op]}' not supported between instances", node)
+
+    def contains(self, item, container, node):
+        if isinstance(container, (set, frozenset, dict)):
+            if not self.is_hashable_obj(item):
+                raise LiftRaise(f"TypeError: unhashable type: '{self.obj_class(item).name}'", node)
+            if self.obj_class(item) is None and not any(self.obj_class(x) is not None for x in container):
+                return _hashable(item) in container
+            return any(x is item or self.obj_eq(x, item, node) for x in container)
+        if isinstance(container, (list, tuple)):
+            if self.obj_class(item) is None and not any(self.obj_class(x) is not None for x in container):
+                return item in container
+            return any(x is item or self.obj_eq(item, x, node) for x in container)
+        k = self.obj_class(container)
+        if k is not None:
+            m, _ = self.find_method(k, "__contains__")
+            if m is not None:
+                return self.truth(self.call_function(m, [item], {}, self_obj=container), node)
+        return item in container
+
     def compare(self, op, a, b, node):
         a, b = _num(a), _num(b)
+        if op in self._DUNDER and (self.obj_class(a) is not None or self.obj_class(b) is not None):
+            return self.rich(op, a, b, node)
+        if op in (ast.In, ast.NotIn) and (self.obj_class(a) is not None or self.obj_class(b) is not None or (isinstance(b, (list, tuple, set, frozenset)) and any(self.obj_class(x) is not None for x in b))):
+            r = self.contains(a, b, node)
+            return r if op is ast.In else not r
         if isinstance(a, (T, sym.Ex)) or isinstance(b, (T, sym.Ex)):
             if op in (ast.Is, ast.IsNot):
                 return (a is b) == (op is ast.Is)
@@ -824,6 +967,10 @@ class Interp:
                 k = x.attrs.get("__class__")
                 if isinstance(k, ClassInfo):
                     return k.is_subclass_of(cls.name)
+                if x.attrs.get("__class__", 0) is None or "__class__" not in x.attrs:
+                    # abstract object without a modelled class: an instance of none of the repo classes
+                    if x.kind in ("element", "domain", "label", "exception"):
+                        return False
                 raise Unsupported(f"isinstance({x.kind}, {cls.name})")
             if isinstance(x, Idx):
                 return cls.name == "Index"
@@ -837,6 +984,8 @@ class Interp:
             return self.call_closure(f, args, kwargs)
         if isinstance(f, BoundMethod):
             return f(*args, **kwargs)
+        if isinstance(f, Obj) and f.kind == "exception_class":
+            return Obj("exception", name=f.attrs["name"], args=tuple(args))
         if isinstance(f, Obj) and "__call__" in f.attrs:
             return self.call(f.attrs["__call__"], args, kwargs, node, mod)
         if isinstance(f, T) and getattr(self, "call_value", None) is not None:
@@ -846,6 +995,8 @@ class Interp:
         if isinstance(f, ClassInfo):
             if f.name in self.class_models:
                 return self.call(self.class_models[f.name], args, kwargs, node, mod)
+            if f.name in self.instantiable or "*" in self.instantiable:
+                return self.instantiate(f, args, kwargs)
             raise Unsupported(f"constructor {f.name}(...) has no semantic model ({norm(node)[:80]})")
         if isinstance(f, FuncInfo):
             return self.call_function(f, args, kwargs)
@@ -974,8 +1125,8 @@ BUILTINS = {
     "True": True,
     "False": False,
     "None": None,
-    "ValueError": Obj("exception_class", name="ValueError"),
-    "NotImplementedError": Obj("exception_class", name="NotImplementedError"),
+    **{n: Obj("exception_class", name=n) for n in ("ValueError", "NotImplementedError", "TypeError", "IndexError", "KeyError", "RuntimeError", "AssertionError", "ZeroDivisionError", "Exception", "AttributeError", "StopIteration")},
+    "NotImplemented": NotImplemented,
     "print": lambda *a, **k: None,
     "hasattr": lambda o, n: (n in o.attrs) if isinstance(o, Obj) else False,
     "getattr": None,
